@@ -153,12 +153,10 @@ fn judge_forms(v: &mut Verdict, a: &BigDecimal, ma: &Dec, conv: &BigDecimal, mco
             };
             let g = dec_of(&got);
             if prim_is_pm2 {
-                // division by +-2 returns the exact half (the compound assignment may instead
-                // agree with the decimal division, which is what the statement's first clause asks)
+                // "division by +-2 always returns the exact half": every form, /= included
                 let half = if mconv.signum() > 0 { ma.half() } else { ma.half().neg() };
-                let alt = dec_of(&(a.clone() / conv.clone()));
-                let ok = g.eq_val(&half) || (is_assign && g.eq_val(&alt));
-                ensure!(v, ok, format!("C08/half:{}", name), "{} = {} expected the exact half {}", name, g.show(), half.show());
+                let _ = is_assign;
+                ensure!(v, g.eq_val(&half), format!("C08/half:{}", name), "{} = {} expected the exact half {}", name, g.show(), half.show());
                 continue;
             }
             let want = dec_of(&(a.clone() / conv.clone()));
